@@ -3,6 +3,10 @@ package l4proxy
 // C10: selection policies on pools built in-package with chosen peer state.
 
 import (
+	"context"
+	"time"
+
+	"github.com/caddyserver/caddy/v2"
 	"fmt"
 	"net"
 	"sort"
@@ -22,32 +26,70 @@ type vaddrConn struct {
 func (c vaddrConn) RemoteAddr() net.Addr { return c.remote }
 func (c vaddrConn) LocalAddr() net.Addr  { return &net.TCPAddr{IP: net.IPv4(127, 0, 0, 1), Port: 1} }
 
+// lbCtx is set by the tests that may provision pools through Handler.Provision
+var lbCtx *caddy.Context
+
+// documented limits of every upstream of the current pool: [max_connections, max_fails]
+var lbEff = map[*Upstream][2]int{}
+
+// vpool builds a pool with chosen peer state.  One pool in three is configured the way a user does — upstreams with dial
+// addresses and max_connections, passive health checks on the handler — and goes through Handler.Provision; the limits the
+// model is told are then the documented ones (max_fails defaults to 1 when fail_duration is set, unhealthy_connection_count
+// is the default of max_connections), not values read back from the provisioned objects.
 func vpool(r *vrng, n int, emit func(string, ...any)) UpstreamPool {
 	var pool UpstreamPool
 	emit("%d", n)
+	nps := make([]int, n)
 	for i := 0; i < n; i++ {
-		np := r.pick(1, 1, 1, 2)
+		nps[i] = r.pick(1, 1, 1, 2)
 		var dial []string
-		for j := 0; j < np; j++ {
+		for j := 0; j < nps[i]; j++ {
 			dial = append(dial, fmt.Sprintf("10.0.%d.%d:%d", i, j+1, 8000+r.intn(3)))
 		}
-		u := &Upstream{Dial: dial, MaxConnections: r.pick(0, 0, 0, 1, 2, 3)}
-		maxFails := r.pick(0, 0, 1, 2)
-		if maxFails > 0 || r.intn(2) == 0 {
-			u.healthCheckPolicy = &PassiveHealthChecks{MaxFails: maxFails}
+		pool = append(pool, &Upstream{Dial: dial, MaxConnections: r.pick(0, 0, 0, 1, 2, 3)})
+	}
+	effFails := make([]int, n)
+	effConns := make([]int, n)
+	if lbCtx != nil && n > 0 && r.intn(3) == 0 {
+		rawFails, ucc := r.pick(0, 0, 1, 2), r.pick(0, 0, 2, 3)
+		h := &Handler{Upstreams: pool, HealthChecks: &HealthChecks{Passive: &PassiveHealthChecks{FailDuration: caddy.Duration(10 * time.Second), MaxFails: rawFails, UnhealthyConnectionCount: ucc}}}
+		for i, u := range pool {
+			effConns[i] = u.MaxConnections
+			if effConns[i] == 0 {
+				effConns[i] = ucc
+			}
+			effFails[i] = rawFails
+			if rawFails == 0 {
+				effFails[i] = 1
+			}
 		}
-		emit("%s %d %d %d", vhex([]byte(u.String())), u.MaxConnections, maxFails, np)
-		for j := 0; j < np; j++ {
-			p := &peer{}
+		if err := h.Provision(*lbCtx); err != nil {
+			panic(err)
+		}
+		_ = h.Cleanup() // the peers stay referenced by the upstreams; forget them in the global pool
+	} else {
+		for i, u := range pool {
+			maxFails := r.pick(0, 0, 1, 2)
+			if maxFails > 0 || r.intn(2) == 0 {
+				u.healthCheckPolicy = &PassiveHealthChecks{MaxFails: maxFails}
+			}
+			for j := 0; j < nps[i]; j++ {
+				u.peers = append(u.peers, &peer{})
+			}
+			effFails[i], effConns[i] = maxFails, u.MaxConnections
+		}
+	}
+	for i, u := range pool {
+		lbEff[u] = [2]int{effConns[i], effFails[i]}
+		emit("%s %d %d %d", vhex([]byte(u.String())), effConns[i], effFails[i], nps[i])
+		for _, p := range u.peers {
 			if r.intn(5) == 0 {
 				p.unhealthy = 1
 			}
 			p.fails = int32(r.pick(0, 0, 0, 1, 2, 3))
 			p.numConns = int32(r.pick(0, 0, 1, 1, 2, 3, 5))
-			u.peers = append(u.peers, p)
 			emit("%d %d %d", p.unhealthy, p.fails, p.numConns)
 		}
-		pool = append(pool, u)
 	}
 	return pool
 }
@@ -64,6 +106,10 @@ func idxOf(pool UpstreamPool, u *Upstream) int {
 func TestVerifLB(t *testing.T) {
 	out := vopen(t, "lb")
 	defer out.close()
+	ctx, cancel := caddy.NewContext(caddy.Context{Context: context.Background()})
+	defer cancel()
+	lbCtx = &ctx
+	defer func() { lbCtx = nil }()
 	r := &vrng{vseed()*92821 + 13}
 	n := vcount(4000)
 	stats := map[string]int{}
@@ -98,11 +144,7 @@ func TestVerifLB(t *testing.T) {
 			emit("lb %s", policy)
 			emit("%d", size)
 			for _, u := range pool {
-				mf := 0
-				if u.healthCheckPolicy != nil {
-					mf = u.healthCheckPolicy.MaxFails
-				}
-				emit("%s %d %d %d", vhex([]byte(u.String())), u.MaxConnections, mf, len(u.peers))
+				emit("%s %d %d %d", vhex([]byte(u.String())), lbEff[u][0], lbEff[u][1], len(u.peers))
 				for _, p := range u.peers {
 					emit("%d %d %d", p.unhealthy, p.fails, p.numConns)
 				}
@@ -122,10 +164,10 @@ func TestVerifLB(t *testing.T) {
 				if p.unhealthy != 0 {
 					ok = false
 				}
-				if u.healthCheckPolicy != nil && u.healthCheckPolicy.MaxFails > 0 && int(p.fails) >= u.healthCheckPolicy.MaxFails {
+				if lbEff[u][1] > 0 && int(p.fails) >= lbEff[u][1] {
 					ok = false
 				}
-				if u.MaxConnections > 0 && int(p.numConns) >= u.MaxConnections {
+				if lbEff[u][0] > 0 && int(p.numConns) >= lbEff[u][0] {
 					ok = false
 				}
 			}
